@@ -29,6 +29,7 @@ class Check(AddCheck):
         yield from gens.merge_cases_item(n_max=n_max, max_src=max_src)
         yield from gens.merge_cases_multi_move('item', rng)
         yield from gens.merge_cases_padded()
+        yield from gens.merge_cases_special_ids()
         yield from gens.merge_cases_decoy_payload()
         n_hist = 150 if tier == 'quick' else 1500
         for state in history_states(rng, n_hist, 10):
